@@ -102,15 +102,24 @@ def run_harnesses(repo, verif, names):
     return results
 
 
-def cbmc_pids(sid):
+def _ppid(pid):
+    try:
+        with open('/proc/%d/stat' % pid) as f:
+            return int(f.read().rsplit(')', 1)[1].split()[1])
+    except Exception:
+        return 0
+
+
+def cbmc_pids(root):
+    """cbmc processes that descend from process `root`"""
     out = []
     try:
         for pid in subprocess.run(['pgrep', '-x', 'cbmc'], capture_output=True, text=True).stdout.split():
-            try:
-                if os.getsid(int(pid)) == sid:
-                    out.append(int(pid))
-            except OSError:
-                pass
+            q, hops = int(pid), 0
+            while q > 1 and hops < 30:
+                if q == root:
+                    out.append(int(pid)); break
+                q = _ppid(q); hops += 1
     except Exception:
         pass
     return out
@@ -142,6 +151,11 @@ def run_guarded(cmd, cwd, env, timeout):
         elif cbmc_rss_kb(p.pid) > RSS_LIMIT_KB:
             oom = True
         if timed_out or oom:
+            for cp in cbmc_pids(p.pid):
+                try:
+                    os.kill(cp, signal.SIGKILL)
+                except OSError:
+                    pass
             try:
                 os.killpg(p.pid, signal.SIGTERM)
             except OSError:
